@@ -201,16 +201,29 @@ class World:
     def __init__(self) -> None:
         self.tests: dict[int, tcc.TestCaseChromosome] = {}
         self.suites: dict[int, tsc.TestSuiteChromosome] = {}
-        self.codes: dict[str, int] = {}
+        self.codes: dict[tuple, int] = {}
+        self._ncache: dict[int, tuple] = {}
         self.svals: dict[tuple, int] = {(): 0}
         self.vals: dict[str, int] = {}
 
     # content versions -------------------------------------------------------------
+    def _stmt_code(self, node) -> str:
+        # CST nodes are immutable: source text per node object (the node is kept so its id is not reused)
+        ent = self._ncache.get(id(node))
+        if ent is None or ent[0] is not node:
+            ent = (node, cst.Module(body=[node]).code)
+            self._ncache[id(node)] = ent
+        return ent[1]
+
+    def content(self, test_case) -> tuple:
+        """the statements as they are now (not TestCase's own cached to_code())."""
+        return tuple(self._stmt_code(st.node) for st in test_case.statements())
+
     def version(self, test_case) -> int:
-        if test_case.size() == 0:
+        key = self.content(test_case)
+        if not key:
             return 0
-        code = test_case.to_module().code  # not the cached to_code(): the statements as they are
-        return self.codes.setdefault(code, len(self.codes) + 1)
+        return self.codes.setdefault(key, len(self.codes) + 1)
 
     def suite_version(self, results) -> int:
         key = tuple(sorted({r.payload for r in results} - {0}))
@@ -319,7 +332,7 @@ def _sut_test(w: World) -> tc.TestCase:
             e.factory.insert_random_statement(t, t.size())
             if e.factory.has_call_on_sut(t):
                 break
-        if e.factory.has_call_on_sut(t) and t.to_module().code not in w.codes:
+        if e.factory.has_call_on_sut(t) and w.content(t) not in w.codes:
             return t
     raise RuntimeError("cannot build a test with a call on the SUT")
 
@@ -341,7 +354,7 @@ def build(ip: dict, seed: int) -> World:
     if ip.get("ns", 1) >= 1:
         for _ in range(200):
             t2 = e.chrom_factory.get_chromosome()
-            if e.factory.has_call_on_sut(t2.test_case) and t2.test_case.to_module().code not in w.codes:
+            if e.factory.has_call_on_sut(t2.test_case) and w.content(t2.test_case) not in w.codes:
                 break
         else:
             raise RuntimeError("factory gives no test with a call on the SUT")
